@@ -222,6 +222,19 @@ CHECKS = {
         design_ref="DESIGN.md section 4, C08",
         note=TB_B + " Finite-domain choices only; bounded fault counts (unbounded liveness is outside the claim).",
     ),
+    "C20": dict(
+        category="model_checking",
+        technique="dynamic symbolic execution (symrun/z3) of the real KafkaClient.close() from a catalogue of reachable client states: every ordering of connection-closed notifications, late connects, late replies and timers after close (symbolic schedule)",
+        text="Bounded symbolic model checking of close() on the real KafkaClient stack over SimNet/SimCluster. Nine states are built by concrete "
+             "prefixes (idle, bootstrap connecting / request in flight, broker connecting, backing off, requests in flight on three brokers, one or "
+             "two brokers being closed by full metadata refreshes with nested close lists, metadata load via a broker); then close() is called and "
+             "every ordering of the outstanding connection-closed notifications, late connects/refusals, late replies and timers up to the bound "
+             "is explored. Monitors: pending operations have failed when close() returns, new operations fail, no connection attempt and no byte "
+             "written afterwards, all connections end closed, close()'s Deferred fires exactly once and not while any connection is open, "
+             "metadata is empty. One genuine defect (bootstrap operations in progress are not tracked by close()) is recorded as a known finding.",
+        design_ref="DESIGN.md section 4, C20 and section 5",
+        note=TB_B + " Finite-domain choices only. Known findings are matched by (label, state) so any other violation is still reported.",
+    ),
 }
 
 NOT_YET = "check not built yet in this session; see DESIGN.md section 4 for the planned solver-based harness"
